@@ -87,6 +87,37 @@ pub fn ans_state(case: &Value, mode: &str, rep: &mut Report) {
                 let fin = g!("into_compressed", k.into_compressed());
                 if sym != 1 || fin != export { bad(rep, format!("push P={} c={} p={} then pop: symbol {} (expected 1), words {:?} (expected {:?})", prec, c, p, sym, fin, export)); }
             }
+            // batch, reverse and fallible-iterator forms must equal the per-symbol loop (same PRECISION per call)
+            for prec in 1..=(w as usize) {
+                let same: Vec<&Vec<u64>> = enc_rows.iter().filter(|r| r[0] as usize == prec).collect();
+                if same.len() < 2 { continue; }
+                let pick = |i: usize| same[(i * 5 + bulk.len() + state as usize) % same.len()];
+                let items: Vec<(usize, Vec<u64>)> = (0..3).map(|i| { let r = pick(i); (1usize, slot_cdf(prec, r[1], r[2]).to_vec()) }).collect();
+                let looped = |order: &[usize]| -> Result<Box<dyn AnsDyn>, String> { let mut k = c0.clone_box(); for &i in order { k.enc(prec, &items[i].1, items[i].0)?; } Ok(k) };
+                let fwd = g!("encode loop", looped(&[0, 1, 2])).unwrap(); let rev = g!("encode loop", looped(&[2, 1, 0])).unwrap();
+                macro_rules! form { ($name:expr, $call:expr, $expect:expr) => {{ let mut k = c0.clone_box(); let r = g!($name, { let k = &mut k; $call(k) }); rep.checks += 1;
+                    if r.is_err() || k.raw() != $expect.raw() { bad(rep, format!("{} on {:?} gives {:?} {:?}, the per-symbol loop gives {:?}", $name, items, r, k.raw(), $expect.raw())); } }} }
+                form!("encode_symbols", |k: &mut Box<dyn AnsDyn>| k.enc_symbols(prec, &items), fwd);
+                form!("try_encode_symbols", |k: &mut Box<dyn AnsDyn>| k.try_enc_symbols(prec, &items, None), fwd);
+                form!("encode_symbols_reverse", |k: &mut Box<dyn AnsDyn>| k.enc_symbols_reverse(prec, &items), rev);
+                form!("try_encode_symbols_reverse", |k: &mut Box<dyn AnsDyn>| k.try_enc_symbols_reverse(prec, &items, None), rev);
+                let iid_syms = [1usize, 1, 1];
+                let iid_loop = { let mut k = c0.clone_box(); for _ in 0..3 { let _ = k.enc(prec, &items[0].1, 1); } k };
+                form!("encode_iid_symbols", |k: &mut Box<dyn AnsDyn>| k.enc_iid(prec, &items[0].1, &iid_syms), iid_loop);
+                form!("encode_iid_symbols_reverse", |k: &mut Box<dyn AnsDyn>| k.enc_iid_reverse(prec, &items[0].1, &iid_syms), iid_loop);
+                // an error in the middle: exactly the items the loop had processed before it are encoded
+                { let mut k = c0.clone_box(); let r = g!("try_encode_symbols", k.try_enc_symbols(prec, &items, Some(1))); let e = g!("loop", looped(&[0])).unwrap(); rep.checks += 1;
+                  if r.is_ok() || k.raw() != e.raw() { bad(rep, format!("try_encode_symbols with an error at item 1: {:?} {:?}, loop until the error gives {:?}", r, k.raw(), e.raw())); } }
+                { let mut k = c0.clone_box(); let r = g!("try_encode_symbols_reverse", k.try_enc_symbols_reverse(prec, &items, Some(1))); let e = g!("loop", looped(&[2])).unwrap(); rep.checks += 1;
+                  if r.is_ok() || k.raw() != e.raw() { bad(rep, format!("try_encode_symbols_reverse with an error at item 1: {:?} {:?}, loop until the error gives {:?}", r, k.raw(), e.raw())); } }
+                // decoding forms
+                let tabs: Vec<Vec<u64>> = vec![items[2].1.clone(), items[1].1.clone(), items[0].1.clone()];
+                let mut l = rev.clone_box(); let exp_syms: Vec<usize> = tabs.iter().map(|t| l.dec(prec, t)).collect();
+                { let mut k = rev.clone_box(); let got = g!("decode_symbols", k.dec_symbols(prec, &tabs)); rep.checks += 1; if got != exp_syms || k.raw() != l.raw() { bad(rep, format!("decode_symbols gives {:?}, loop {:?}", got, exp_syms)); } }
+                { let mut k = rev.clone_box(); let got = g!("try_decode_symbols", k.try_dec_symbols(prec, &tabs, None)); rep.checks += 1; if got.iter().map(|r| r.clone().ok()).collect::<Vec<_>>() != exp_syms.iter().map(|s| Some(*s)).collect::<Vec<_>>() || k.raw() != l.raw() { bad(rep, format!("try_decode_symbols gives {:?}, loop {:?}", got, exp_syms)); } }
+                { let mut k = iid_loop.clone_box(); let mut l2 = iid_loop.clone_box(); let e: Vec<usize> = (0..3).map(|_| l2.dec(prec, &items[0].1)).collect(); let got = g!("decode_iid_symbols", k.dec_iid(prec, &items[0].1, 3)); rep.checks += 1; if got != e || k.raw() != l2.raw() { bad(rep, format!("decode_iid_symbols gives {:?}, loop {:?}", got, e)); } }
+                rep.class("batch_forms");
+            }
         }
 
         // ------------------------------------------------------------------ bits-back / surjectivity
@@ -267,6 +298,11 @@ pub fn ans_state(case: &Value, mode: &str, rep: &mut Report) {
                 let nw1 = g!("num_words", k.num_words());
                 let (b1, s1) = k.raw();
                 if nw1 > nw0 + 1 || b1.len() > b0.len() + 1 { bad(rep, format!("encode {:?} wrote more than one word: {} -> {} words", &r[..3], nw0, nw1)); }
+                // probing the coder between symbols (successful or failing views) must not make it grow
+                { let mut k2 = c0.clone_box(); let _ = g!("get_binary", k2.get_binary()); let _ = g!("get_compressed", k2.get_compressed());
+                  let _ = g!("encode_symbol", k2.enc(prec, &slot_cdf(prec, c, p), 1)); let _ = g!("get_binary", k2.get_binary()); let _ = g!("get_compressed", k2.get_compressed());
+                  rep.checks += 1; let nw2 = g!("num_words", k2.num_words()); let fin = g!("into_compressed", k2.into_compressed());
+                  if nw2 > nw0 + 1 || fin.len() > nw0 + 1 { bad(rep, format!("with inspections around encode {:?}: {} -> {} words (exported {})", &r[..3], nw0, nw2, fin.len())); } }
                 // value V = state * 2^(W*len(bulk)); lemma: V' * p < (V + p * 2^(W*len(bulk'))) * 2^P
                 let sh1 = (w as usize * b1.len()) as u32; let sh0 = (w as usize * b0.len()) as u32;
                 if sh1 < 64 {
